@@ -182,6 +182,31 @@ func runC13(r *Run) {
 	cases = append(cases, fieldCase{name: "verifyQueryRound[test_circuit]", acceptReplay: func() string { return friAcceptReplay(r) }, bound: "real shape of test_circuit (258+2 opened polynomials, two arity-16 steps, 16 final coefficients); every leaf value, opening, challenge and the query index symbolic; Merkle checks excluded (C12)", build: func(fc *fctx) ([]frontend.Variable, []*ref.N) {
 		return queryRoundCase(fc, base, r)
 	}})
+	// synthetic shapes with other numbers of reduction steps (the real proofs all have two)
+	nsteps := []int{3}
+	if r.Thorough() {
+		nsteps = []int{1, 3, 4}
+	}
+	for _, ns := range nsteps {
+		syn := *base
+		syn.Name = fmt.Sprintf("synthetic %d steps", ns)
+		syn.Common.FriParams.ReductionArityBits = nil
+		for i := 0; i < ns; i++ {
+			syn.Common.FriParams.ReductionArityBits = append(syn.Common.FriParams.ReductionArityBits, 4)
+		}
+		syn.Common.FriParams.DegreeBits = uint64(4*ns + 1)
+		syn.Common.DegreeBits = syn.Common.FriParams.DegreeBits
+		syn.Common.Config.NumWires, syn.Common.Config.NumRoutedWires, syn.Common.NumConstants = 3, 2, 2
+		syn.Common.Config.NumConstants = 2
+		syn.Common.Config.NumChallenges, syn.Common.NumPartialProducts, syn.Common.QuotientDegreeFactor = 1, 1, 1
+		synp := &syn
+		var cs fieldCase
+		cs = fieldCase{name: fmt.Sprintf("verifyQueryRound[synthetic: %d arity-16 steps, 2 final coefficients, 5+4+2+1 polynomials]", ns), bound: "synthetic parameters; every leaf value, opening, challenge and the query index symbolic; Merkle checks excluded (C12)", build: func(fc *fctx) ([]frontend.Variable, []*ref.N) {
+			return queryRoundCase(fc, synp, r)
+		}}
+		cs.acceptReplay = func() string { return friRecordReplay(cs, r) }
+		cases = append(cases, cs)
+	}
 	hooks := map[string]hookFn{"fri.Chip.verifyMerkleProofToCapWithCapIndex": func(recv any, args []any) []any { return nil }}
 	var stats []any
 	for _, c := range cases {
@@ -197,7 +222,7 @@ func runC13(r *Run) {
 		}
 	}
 	r.Bounds["values"] = "all field values (symbolic)"
-	r.Bounds["shapes"] = "LDE bits " + fmt.Sprint(nlogs) + "; combine batches {2+1, 8+2, real 258+2}; arity 16 with symbolic within-coset index (thorough: also each of the 16 positions concretely); final polynomial lengths " + fmt.Sprint(flens) + "; one whole query round of the real shape"
+	r.Bounds["shapes"] = "LDE bits " + fmt.Sprint(nlogs) + "; combine batches {2+1, 8+2, real 258+2}; arity 16 with symbolic within-coset index (thorough: also each of the 16 positions concretely); final polynomial lengths " + fmt.Sprint(flens) + "; one whole query round of the real shape and of synthetic shapes with " + fmt.Sprint(nsteps) + " reduction steps"
 	r.Assumptions = append(r.Assumptions,
 		"leaf gadget contracts (C05-C07) and extension arithmetic as executed (C08 re-proves it); Merkle sub-calls replaced by no-ops (C12)",
 		"precondition: beta is not one of the 16 coset points and the domain point differs from zeta and g*zeta (the circuit is unsatisfiable there because InverseExtension rejects zero)")
@@ -418,6 +443,70 @@ func (c *friPerturbCircuit) Define(api frontend.API) error {
 
 // friAcceptReplay: honest proof accepted; a changed final-polynomial coordinate rejected (full real
 // code); a changed fold evaluation rejected by the round algebra (Merkle check switched off).
+// friRecordReplay runs the real verifyQueryRound on gnark's test engine with random inputs and
+// records the operands of the equalities it asserts (the assertion itself is switched off so that
+// the run goes through); they must be the values plonky2's conditions have at the same inputs.
+func friRecordReplay(c fieldCase, r *Run) string {
+	merkleOff := func(recv any, args []any) []any { return nil }
+	hooks := map[string]hookFn{"fri.Chip.verifyMerkleProofToCapWithCapIndex": merkleOff}
+	names, his, _, refs, e := engineInputs(c, hooks)
+	if e != "" || len(refs) == 0 {
+		return ""
+	}
+	env := map[string]*big.Int{}
+	var bitNames []string
+	for i, n := range names {
+		env[n] = ref.UFEval(fmt.Sprintf("fri-record-%d", r.Seed), i, false, nil)
+		if his[i].Cmp(sym.Pm1) < 0 {
+			env[n].Mod(env[n], new(big.Int).Add(his[i], big.NewInt(1)))
+		}
+		if his[i].Cmp(big.NewInt(1)) == 0 && n != "xindex" {
+			bitNames = append(bitNames, n)
+		}
+	}
+	xi, ok := env["xindex"]
+	if !ok {
+		return ""
+	}
+	for k, n := range bitNames {
+		env[n] = big.NewInt(int64(xi.Bit(k)))
+	}
+	var rec []*big.Int
+	h2 := map[string]hookFn{"fri.Chip.verifyMerkleProofToCapWithCapIndex": merkleOff,
+		"goldilocks.Chip.AssertIsEqual": func(recv any, args []any) []any {
+			site := sym.CallSite("example-near-light-client", 3)
+			rest := strings.TrimPrefix(site, firstFrame(site)+" < ")
+			if strings.Contains(firstFrame(rest), "verifyQueryRound") {
+				rec = append(rec, toBig(args[0].(gl.Variable).Limb), toBig(args[1].(gl.Variable).Limb))
+			}
+			return nil
+		}}
+	if ok, _ := runCaseOnEngine(c, h2, names, env); !ok {
+		return "" // the run did not go through for another reason: no verdict
+	}
+	memo := map[*ref.N]*big.Int{}
+	// engineInputs binds reference variables to the dry run's atoms: evaluate by name
+	want := make([]*big.Int, len(refs))
+	for i, n := range refs {
+		want[i] = ref.Eval(n, func(h any) *big.Int {
+			if v, ok := env[h.(*sym.Term).Name]; ok {
+				return v
+			}
+			return new(big.Int)
+		}, memo)
+	}
+	if len(rec) != len(want) {
+		return fmt.Sprintf("the real verifyQueryRound asserts %d equalities, plonky2's query round has %d", len(rec)/2, len(want)/2)
+	}
+	for i := range want {
+		g := new(big.Int).Mod(rec[i], P)
+		if g.Cmp(want[i]) != 0 {
+			return fmt.Sprintf("operand %d of asserted equality %d of the real verifyQueryRound is %s at random inputs (query index %s), plonky2's condition has %s there", i%2, i/2, g, xi, want[i])
+		}
+	}
+	return ""
+}
+
 func friAcceptReplay(r *Run) string {
 	in := loadInstance(r.Repo, "test_circuit").restrict(1)
 	os.Setenv("USE_BIT_DECOMPOSITION_RANGE_CHECK", "true")
